@@ -40,15 +40,16 @@ SPEC = dict(
          "relational pairs Lt/Le, Le/Lt, Eq/Ne, Ne/Eq over private symbols and 4 Contains(z, Interval) atoms, plus atoms "
          "over one symbol x with integer constants (x<c, x>=c, x<=c, x>c, x=c, x!=c, Contains(x, Interval), Contains(x, "
          "FiniteSet)), constants, duplicates, complementary literals) built bottom-up through "
-         "logical_and/or/xor/not/nand/nor/xnor; 'pw …' = piecewise() over such conditions. distinct = distinct op "
+         "logical_and/or/xor/not/nand/nor/xnor; 'pw …' = piecewise() over such conditions; 'domc …' = logical_and of Contains(x, FiniteSet with pi, E, sqrt2, sqrt3, rationals, integers) and relationals of x against rational bounds / opaque atoms (oracle only: recipe vs result evaluated at every element and at points outside). distinct = distinct op "
          "lines; non-trivial = every line (each runs >= 1 API call and a full truth table x every relevant integer "
          "value of x); tags: sys-* (all unary/binary/depth-2 combinations over a 10-leaf universe), rand-depth<k>, "
-         "rand-xor, rand-piecewise, dom-sys/rand-domain (one FiniteSet conjunct: the FiniteSet-domain rule), rand-xmix",
+         "rand-xor, rand-piecewise, domc-sys/rand-domc/rand-domc-pure, dom-sys/rand-domain (one FiniteSet conjunct: the FiniteSet-domain rule), rand-xmix",
     not_covered=[
         "logical_and with several Contains(x, FiniteSet) conjuncts (hash-order dependent choice): model answers SKIP, "
         "only the oracle checks these (142 of 26366 quick ops)",
-        "FiniteSet elements / relational constants that are not integers (rationals, doubles, constants like pi, "
-        "symbols), Contains over non-symbol expressions, open intervals over x",
+        "FiniteSet elements / relational constants that are not integers are not modelled in Lean: rationals, pi, E, "
+        "radicals are checked by the oracle-only 'domc' family; doubles, symbolic elements, Contains over non-symbol "
+        "expressions and open intervals over x are not exercised",
         "semantics of the opaque atoms (Interval::contains, relational evaluation on numbers) belong to C27/C29; "
         "they are exercised by the numeric-substitution oracle only",
         "Not/And/Or/Xor objects built directly with make_rcp by a user (outside the invariant wf)",
